@@ -1473,6 +1473,10 @@ def stream_pools(ctx, batch, n_pools):
         check_pool(ctx, batch, recipe, desc, (ctx.seed, "C12", "pool", pi), "equality", pi)
 
 
+def capped(ctx, stream, cap=8):
+    return sum(1 for v in ctx.violations if v["stream"] == stream) >= cap
+
+
 def small_trees(max_nodes):
     """every ordered tree with at most max_nodes nodes over the labels a / a[x=1] (inner or leaf), s (string leaf), br (void leaf)"""
     from functools import lru_cache
@@ -1548,7 +1552,7 @@ def stream_small(ctx, batch, max_nodes):
             got = c.decode()
             d = shape_diff(shape(root), shape(c))
             ev_ok = real_events(root) == expected_events(root)
-            if got != want or d or not ev_ok or not (c == root) or pointer_errors(c):
+            if (got != want or d or not ev_ok or not (c == root) or pointer_errors(c)) and not capped(ctx, "small-exhaustive"):
                 ctx.violation("copy of a small tree with repeated identical sub-structure has the wrong shape",
                               case={"op": "small", "tree": t, "via": via}, expected=want, observed=got + (f" ({d})" if d else ""),
                               stream="small-exhaustive")
@@ -1556,7 +1560,7 @@ def stream_small(ctx, batch, max_nodes):
             for el in all_nodes(root)[1:]:
                 if is_tag(el):
                     cc = copy.copy(el)
-                    if shape_diff(shape(el), shape(cc)) or cc.parent is not None:
+                    if (shape_diff(shape(el), shape(cc)) or cc.parent is not None) and not capped(ctx, "small-exhaustive"):
                         ctx.violation("copy of an inner element of a small tree has the wrong shape",
                                       case={"op": "small", "tree": t, "via": via}, expected=el.decode(), observed=cc.decode(),
                                       stream="small-exhaustive")
@@ -1579,6 +1583,44 @@ def stream_nonstring(ctx):
                           case={"op": "nonstring", "value": repr(v)}, expected=f"== and {soup.a.decode()}",
                           observed=f"=={c == soup.a} and {c.decode()}", stream="nonstring-attr",
                           kf="C12-copy-coerces-nonstring-attr" if nonstr_attr(soup.a) else None)
+
+
+def stream_settings(ctx):
+    """one bare tag per parameter of the live Tag.__init__, given a distinctive value: every instance attribute of the copy
+    equals the original's (the search behind the generated copy_self table)"""
+    import inspect
+    e = E()
+    T = e["Tag"]
+    distinct = {"namespace": "http://n", "prefix": "pf",
+                "attrs": {"class": e["el"].AttributeValueList(["a", "b"]), "id": "i"}, "is_xml": True, "sourceline": 12,
+                "sourcepos": 34, "can_be_empty_element": True, "cdata_list_attributes": {"*": {"class"}},
+                "preserve_whitespace_tags": {"nm"}, "interesting_string_types": {e["cls"]["Comment"]},
+                "namespaces": {"pf": "http://n"}}
+    skip = {"self", "parser", "builder", "parent", "previous", "name"}
+    links = {"parent", "next_element", "previous_element", "next_sibling", "previous_sibling", "contents", "attrs"}
+    params = [p for p in inspect.signature(T.__init__).parameters if p not in skip]
+    for p in params + ["<all>", "<hidden>"]:
+        if p not in distinct and not p.startswith("<"):
+            ctx.count("settings:parameter-unknown-to-the-check")
+            ctx.notes.append(f"Tag.__init__ has a parameter the check has no distinctive value for: {p}")
+            continue
+        kw = dict(distinct) if p.startswith("<") else {p: distinct[p]}
+        t = T(name="nm", **kw)
+        if p == "<hidden>":
+            t.hidden = True
+        for how in HOWS:
+            c = do_copy(t, how)
+            ctx.case(("settings", p, how))
+            ctx.count("settings:cases")
+            a, b = vars(t), vars(c)
+            diff = [k for k in sorted(set(a) | set(b)) if k not in links and (k not in a or k not in b or a[k] != b[k])]
+            if a["attrs"] != b["attrs"] or (a["attrs"] and a["attrs"] is b["attrs"]):
+                diff.append("attrs")
+            if diff and not capped(ctx, "settings"):
+                ctx.violation("the copy of a tag does not keep an instance attribute", case={"op": "settings", "param": p, "how": how},
+                              expected={k: repr(a.get(k)) for k in diff}, observed={k: repr(b.get(k)) for k in diff}, stream="settings")
+    ctx.exhaustive_parts.append(f"settings: every parameter of the live Tag.__init__ ({', '.join(params)}) given a distinctive value, "
+                                "alone and all together, x 3 ways of copying; all instance attributes compared")
 
 
 def reparse(soup):
@@ -1643,7 +1685,9 @@ def stream_pickle(ctx, n_docs):
         if full_dump(soup) != before:
             bad.append(("editing the unpickled document changed the original", "unchanged", str(op)))
         for what, exp, obs in bad:
-            ctx.violation(what, case=case, expected=str(exp)[:2000], observed=str(obs)[:2000], stream="pickle")
+            ctx.count("pickle:oracle-fails")
+            if not capped(ctx, "pickle"):
+                ctx.violation(what, case=case, expected=str(exp)[:2000], observed=str(obs)[:2000], stream="pickle")
         # small tags and strings of this document (default pickling walks the links: small documents only)
         if len(all_nodes(soup)) <= 25:
             for el, path in paths(soup)[1:6]:
@@ -1659,7 +1703,8 @@ def stream_pickle(ctx, n_docs):
                 ctx.case(None)
                 ctx.count("pickle:" + ("tags" if is_tag(el) else "strings"))
                 qm = mutable_objects(q)
-                if not (q == el) or type(q) is not type(el) or renderings(q) != renderings(el) or any(k in wm for k in qm):
+                if (not (q == el) or type(q) is not type(el) or renderings(q) != renderings(el) or any(k in wm for k in qm)) \
+                        and not capped(ctx, "pickle"):
                     ctx.violation("the unpickled element is not an independent equal of the original", case=case | {"path": list(path)},
                                   expected=renderings(el)[0], observed=renderings(q)[0], stream="pickle")
 
@@ -1710,10 +1755,11 @@ def run(ctx: Ctx):
     batch = Batch(ctx)
     stream_corpus(ctx, batch)
     stream_nonstring(ctx)
+    stream_settings(ctx)
     stream_small(ctx, batch, ctx.n(5, 6))
-    stream_random(ctx, batch, ctx.n(700, 6000))
-    stream_pools(ctx, batch, ctx.n(150, 1200))
-    stream_pickle(ctx, ctx.n(250, 2000))
+    stream_random(ctx, batch, ctx.n(1400, 9000))
+    stream_pools(ctx, batch, ctx.n(300, 1800))
+    stream_pickle(ctx, ctx.n(400, 3000))
     batch.flush()
     if ctx.lean is not None and not ctx.lean.ok:
         ctx.notes.append("Lean obligations did not check; the generated tables describe the source of copy_self/__init__: the copies "
@@ -1750,6 +1796,14 @@ def replay(path):
         print("original:", soup.a.decode(), dict(soup.a.attrs))
         print("copy    :", cp.decode(), dict(cp.attrs), "equal:", cp == soup.a)
         return 0 if cp == soup.a and cp.decode() == soup.a.decode() else 1
+    if op == "settings":
+        stream_settings(ctx)
+        for w in ctx.violations:
+            if w["case"]["param"] == c["param"] and w["case"]["how"] == c["how"]:
+                print(f"Tag(name='nm', {c['param']}=...) copied with {c['how']}: original", w["expected"], "copy", w["observed"])
+                return 1
+        print("every instance attribute kept")
+        return 0
     if op == "pickle":
         soup = build(c["recipe"])
         p = pickle.loads(pickle.dumps(soup))
